@@ -1074,6 +1074,11 @@ func propC17(r *Run, w *World) {
 					el := stripConv(elems[0])
 					ms, isMS := el.(*ssa.MakeSlice)
 					ok = isMS && Term(ms.Len) == "len(reply#0.Data)"
+					if !isMS && cloneOf(el, "reply#0.Data") {
+						// the other spellings of a copy: append onto a base without capacity, bytes.Clone, slices.Clone
+						r.OK("GetRules element is a copy", c.Pos(), "clone idiom: "+Term(el))
+						return
+					}
 					if ok {
 						// a copy(el, reply.Data) in the same block before the append
 						copied := false
@@ -1312,7 +1317,7 @@ func propC18(r *Run, w *World) {
 					}
 				}
 				r.Check(len(missing) == 0, "parser call guarded", parser.Pos(), strings.Join(need, " ∧ "), "the parser runs on a datagram without: "+strings.Join(missing, ", "))
-				r.Check(Term(parser.Call.Args[0]) == "p0.readBuf[:rf#0]", "parser input", parser.Pos(), "readBuf[:nr]", "the parser is given "+Term(parser.Call.Args[0])+", not readBuf[:nr]")
+				r.Check(TermAt(parser.Call.Args[0], parser.Block()) == "p0.readBuf[:rf#0]", "parser input", parser.Pos(), "readBuf[:nr]", "the parser is given "+TermAt(parser.Call.Args[0], parser.Block())+", not readBuf[:nr]")
 				defer alias(parser, "parsed")()
 			}
 			for _, ret := range retEdges(fn) {
@@ -1466,4 +1471,44 @@ func orderInBlock(in ssa.Instruction) int {
 		}
 	}
 	return -1
+}
+
+// cloneOf: v is a freshly allocated copy of the slice whose term is src, written as one of the
+// clone idioms: append(B, src...) where B has no capacity to reuse (a nil slice, src[:0:0] or any
+// other three-index slice with max 0, an empty literal, make(T, 0) without capacity), bytes.Clone(src)
+// or slices.Clone(src). append(src[:0], src...) is NOT one: it writes src onto itself.
+func cloneOf(v ssa.Value, src string) bool {
+	c, ok := stripConv(v).(*ssa.Call)
+	if !ok {
+		return false
+	}
+	switch calleeName(c) {
+	case "bytes.Clone", "slices.Clone":
+		return len(c.Call.Args) == 1 && Term(c.Call.Args[0]) == src
+	}
+	base, _, spread, isApp := appendParts(c)
+	if !isApp || spread == nil || Term(spread) != src {
+		return false
+	}
+	switch b := stripConv(base).(type) {
+	case *ssa.Const:
+		return b.IsNil()
+	case *ssa.Slice:
+		if b.Max != nil {
+			if k, isC := constInt(b.Max); isC && k == 0 {
+				return true
+			}
+		}
+		// an empty literal: slice of a zero-length array allocation
+		if al, isAl := b.X.(*ssa.Alloc); isAl {
+			if arr, isArr := al.Type().(*types.Pointer).Elem().Underlying().(*types.Array); isArr && arr.Len() == 0 {
+				return true
+			}
+		}
+	case *ssa.MakeSlice:
+		l, lc := constInt(b.Len)
+		k, kc := constInt(b.Cap)
+		return lc && kc && l == 0 && k == 0
+	}
+	return false
 }
